@@ -30,10 +30,30 @@ SPEC = {
     'trusted': ['ChainSupport.SupportsDestChain answers are an oracle (scripted fake)',
                 'time.Duration multiplication assumed not to overflow int64 (mult <= 5s, <= 256 oracles)'],
     'assumptions': ['libocr hands every oracle the same outcome bytes; oracleIDToP2PID has the same key set on every oracle'],
-    'level_text': 'Proof: 10 Coq theorems (schedule order-independence over all permutations, exact membership/ordering/delays, '
-                  'error iff no writer, candidate and non-writer never transmit, empty reports never accepted) over the executable model; '
-                  'correspondence: GetTransmissionSchedule, Plugin.Reports and the accept/transmit callbacks of both plugins run against the model on generated configurations every run',
-    'level_note': 'Trusted: Coq kernel, hand-written model, differential harness. Codec decode results, curse reads and home-chain answers are model inputs (oracles). No axioms.',
-    'modelled': 'GetTransmissionSchedule, commit/execute ShouldTransmitAcceptedReport gates, empty-report gates; '
-                'codec decode results and curse reads are inputs of the model',
+    'level_text': 'Proof: 18 closed Coq theorems. 10 property theorems over the executable model: the transmission schedule is the same for every enumeration order of '
+                  'the oracle-id map (C16_schedule_order, all permutations; C16_schedule_unsorted_refuted = F16, repaired in /repo: ids were iterated in Go map order), '
+                  'its members are exactly the oracles that can write to the destination, ascending, with strictly increasing delays (C16_schedule_members, '
+                  'C16_delays_increasing), an error iff there is no writer (C16_schedule_error_iff); a report is transmitted only by an oracle of the ACTIVE '
+                  'configuration - never under the candidate digest, for execute never by a non-writer, for commit never after a failed roots-state check '
+                  '(C16_candidate_commit, C16_commit_transmit_only_active, C16_exec_transmit_only_active_writer); empty reports are never accepted '
+                  "(C16_empty_commit_report_not_accepted, C16_empty_exec_report_not_accepted). Judge soundness (8 C16_judge_*): sched_ok is an iff with the model's "
+                  "schedule on unique ids; rep_ok and gate_ok accept the model's output and imply the clauses. Correspondence, every run: the real "
+                  'GetTransmissionSchedule on id sets in two random orders; Plugin.Reports of both plugins on 24 fresh instances per DON (exactly one distinct answer); '
+                  'the accept / transmit callbacks over digest combinations on long-lived instances with the candidate digest changing between calls; four LONG-LIVED '
+                  'execute plugins on the REAL home-chain poller over a scripted CCIPHome whose role map and candidate digest are re-drawn between rounds (incl. a '
+                  'successful empty poll): gate and schedule must follow the configuration fetched last (C16_gate_exec_roles, C16_rep_exec_roles). Translation tie (4 '
+                  'theorems, C16_gen.v): GetTransmissionSchedule is re-translated from source and membership, order and the error clause restated over it. Partial: '
+                  'answers "do not transmit" / error of the gates are compared with the model only; the curse and RMN-signature conjuncts of acceptance are judged by C15 '
+                  'and C05.',
+    'level_note': 'Trusted: Coq kernel, hand-written model and theorem statements, differential harness, leaf translator. Specific: ChainSupport.SupportsDestChain '
+                  'answers, codec decode results, curse reads and home-chain answers are model inputs (scripted oracles); in the roles part the home chain is the real '
+                  "poller over a scripted CCIPHome; time.Duration multiplication does not overflow int64 (mult <= 5 s, <= 256 oracles); Go's sort of equal keys does not "
+                  'arise (ids unique). libocr hands every oracle the same outcome bytes and oracleIDToP2PID has the same key set on every oracle. No axioms.',
+    'technique': 'Coq theorems (permutation invariance and exact characterisation of the schedule, transmit / accept gates) over a hand-written Gallina model; '
+                 'differential correspondence with proved judge incl. long-lived execute plugins on the real home-chain poller; GetTransmissionSchedule re-translated '
+                 'from Go (C16_gen.v)',
+    'modelled': 'Hand model (Model/Transmit.v): plugincommon.GetTransmissionSchedule, the commit / execute ShouldTransmitAcceptedReport gates (digest comparison, '
+                'writer test, commit roots-state check as an input flag), the empty-report gates of both ShouldAcceptAttestedReport; Plugin.Reports as (report, '
+                'schedule). Translated from source per run: GetTransmissionSchedule (ChainSupport.SupportsDestChain = oracle). Inputs of the model: codec decode '
+                'results, curse reads, the home-chain configuration (active / candidate digest, role map) as fetched last',
 }
